@@ -6,4 +6,5 @@ CONSTANTS
   Known <- LastUnknown
   Msgs <- AllMsgs
   MaxMsgs = 3
-INVARIANTS Emit TypeOK OnlyVerifiedShares OnlyKnownSenders OwnShareKept AtMostThreshold SubmitsGroupSignature NothingBeforeThreshold
+INVARIANTS Emit TypeOK OnlyVerifiedShares OnlyKnownSenders OwnShareKept AtMostThreshold SubmitsGroupSignature UsedSharesVerify NothingBeforeThreshold
+PROPERTIES SharesStable
